@@ -46,7 +46,17 @@ def _w(where: str, what: str, **kw: Any) -> None:
         WITNESS.append({"where": where, "what": what, **kw})
 
 
-def _cmp_named(where: str, got: dict, exp: dict, *, names_exact: bool, order: list[str] | None = None, ctx: Any = None) -> None:
+def _close_scaled(g: Any, e: Any, scale: float) -> bool:
+    """close() with the tolerance tied to the magnitude of the summed terms when that is larger than the value itself."""
+    if close(g, e, TOL):
+        return True
+    try:
+        return math.isfinite(float(g)) and abs(float(g) - float(e)) <= TOL * max(1.0, abs(float(e)), float(scale))
+    except (TypeError, ValueError, OverflowError):
+        return False
+
+
+def _cmp_named(where: str, got: dict, exp: dict, *, names_exact: bool, order: list[str] | None = None, ctx: Any = None, scales: dict | None = None) -> None:
     if names_exact and set(got) != set(exp):
         _w(where, "name set differs", got=sorted(got), expected=sorted(exp), ctx=ctx)
         return
@@ -57,7 +67,7 @@ def _cmp_named(where: str, got: dict, exp: dict, *, names_exact: bool, order: li
             _w(where, "unexpected name", name=k, ctx=ctx)
         elif not _finite(exp[k]):
             COUNT["skipped:non-finite reference value (outside the functions' domain)"] += 1
-        elif not close(v, exp[k], TOL):
+        elif not (close(v, exp[k], TOL) if scales is None else _close_scaled(v, exp[k], scales.get(k, 0.0))):
             _w(where, "value differs", name=k, got=float(v), expected=float(exp[k]), ctx=ctx)
 
 
@@ -102,6 +112,7 @@ def post_call(self: Any, time: Any, variables: Any, result: Any) -> bool:
         return True
     state = dict(zip(ref.variables, vals))
     exp = ref.rhs(state, float(time))
+    scl = ref.rhs_scale(state, float(time))
     res = list(result)
     if len(res) != len(ref.variables):
         _w("__call__", "result length differs", got=len(res), expected=len(ref.variables))
@@ -109,7 +120,7 @@ def post_call(self: Any, time: Any, variables: Any, result: Any) -> bool:
     for v, g in zip(ref.variables, res):
         if not _finite(exp[v]):
             COUNT["skipped:non-finite reference value (outside the functions' domain)"] += 1
-        elif not close(g, exp[v], TOL):
+        elif not _close_scaled(g, exp[v], scl[v]):
             _w("__call__", "value differs (declaration-order vector)", name=v, got=float(g), expected=exp[v], ctx={"t": float(time), "state": state})
     return True
 
@@ -120,7 +131,8 @@ def post_rhs(self: Any, variables: Any, time: Any, result: Any) -> bool:
         return True
     COUNT["Model.get_right_hand_side"] += 1
     exp = ref.rhs(_state_of(ref, variables), float(time))
-    _cmp_named("get_right_hand_side", dict(result), exp, names_exact=True, order=list(ref.variables), ctx={"t": float(time), "state": _state_of(ref, variables)})
+    _cmp_named("get_right_hand_side", dict(result), exp, names_exact=True, order=list(ref.variables), ctx={"t": float(time), "state": _state_of(ref, variables)},
+               scales=ref.rhs_scale(_state_of(ref, variables), float(time)))
     return True
 
 
@@ -224,7 +236,7 @@ def post_rhs_tc(self: Any, args: Any, result: Any) -> bool:
         if not _domain_ok(state.values()):
             continue
         exp = ref.rhs(state, float(t))
-        _cmp_named("get_right_hand_side_time_course", got.to_dict(), exp, names_exact=True, order=list(ref.variables), ctx={"t": float(t), "state": state})
+        _cmp_named("get_right_hand_side_time_course", got.to_dict(), exp, names_exact=True, order=list(ref.variables), ctx={"t": float(t), "state": state}, scales=ref.rhs_scale(state, float(t)))
     return True
 
 
